@@ -3,6 +3,7 @@ Handlers for channels and rate–distortion (C13): Core/Channel evaluated in `Fl
 -/
 import DitModel.Core.Channel
 import DitModel.Core.BA
+import DitModel.Core.CapLoop
 import DitModel.Drv.Info
 namespace Dit.Drv
 open Dit
@@ -56,6 +57,19 @@ def hBaF : J → Option J
         (baIterates Float.exp2 beta p distFn k W0))
   | _ => none
 
-def channelHandlers : List (String × (J → Option J)) := [("chanf", hChanF), ("baf", hBaF)]
+/-- `capf [P, rtol, atol, fuel]`: `channel_capacity` on an array with the code's stopping rule
+`|cc − old| ≤ atol + rtol·|old|`; returns `[cc, r, passes]`. -/
+def hCapF : J → Option J
+  | .arr [P, rtol, atol, fuel] => do
+      let P ← J.toFMat? P
+      let rtol ← rtol.toFloat?
+      let atol ← atol.toFloat?
+      let fuel ← fuel.toNat?
+      let (cc, r, it) := capRun Float.log2 Float.exp2 (fun n => n.toFloat) P
+        (fun a b => decide ((a - b).abs ≤ atol + rtol * b.abs)) fuel
+      pure (J.arr [floatJ cc, listJ floatJ r, natJ it])
+  | _ => none
+
+def channelHandlers : List (String × (J → Option J)) := [("chanf", hChanF), ("baf", hBaF), ("capf", hCapF)]
 
 end Dit.Drv
